@@ -50,6 +50,11 @@ let spec input obs_s =
     let hfm_of st = is_x || (match st with h :: _ -> h = "1" | [] -> false) in
     let known = Hashtbl.create 64 in
     Stdlib.List.iter (fun i -> Hashtbl.replace known i ()) sc.init;
+    (* headers stored as NON-ORPHANS so far (their parent was stored as a non-orphan when they arrived) *)
+    let connected = Hashtbl.create 64 in
+    Hashtbl.replace connected (int_of_n sc.hist.gid) ();
+    let parent_of i = (match Hashtbl.find_opt u i with Some (sr : Store.src) -> int_of_n sr.Store.s_prev | None -> -1) in
+    Stdlib.List.iter (fun i -> if Hashtbl.mem connected (parent_of i) then Hashtbl.replace connected i ()) sc.init;
     let dropped = Hashtbl.create 8 in
     let prev_state = ref o.init_state in
     (* experimental engine: every connection has its own cursor; the tip is shared *)
@@ -93,7 +98,8 @@ let spec input obs_s =
         if e.kind = 'H' && e.batch <> [] then begin
           let nh = if is_x && cur_state p = ["-"] then -1 else next_of (cur_state p) in
           let fresh i = not (Hashtbl.mem known i) in
-          let contradicts i = fresh i && nh >= 0 && th i = Some nh && (match cp_id_at nh with Some c -> c <> i | None -> false) in
+          (* contradicts ANY checkpoint of the list: tree height = a checkpoint's height, another hash *)
+          let bad_height i = (match th i with Some h -> (match cp_id_at h with Some c -> c <> i | None -> false) | None -> false) in
           let matches i = fresh i && nh >= 0 && th i = Some nh && cp_id_at nh = Some i in
           (* does the batch extend the tip header by header (so that every header becomes LONGEST_CHAIN)? *)
           let linear_on_tip =
@@ -101,9 +107,18 @@ let spec input obs_s =
               | [] -> true
               | i :: r -> fresh i && (match Hashtbl.find_opt u i with Some (s : Store.src) -> int_of_n s.Store.s_prev = prev | None -> false) && go i r in
             go (tip_of !prev_state) e.batch in
-          let rec first_bad = function
-            | [] -> `None
-            | i :: r -> if is_forb i then `Forb else if contradicts i then `Contra else first_bad r in
+          (* the first offending header of the batch; [ingested] = the headers stored as non-orphans before it (and itself
+             when it is a contradicting one: both engines store first and compare afterwards) *)
+          let rec first_bad newly = function
+            | [] -> (`None, newly)
+            | i :: r ->
+              if is_forb i then (`Forb, newly)
+              else begin
+                let conn = Hashtbl.mem connected (parent_of i) || Stdlib.List.mem (parent_of i) newly in
+                if fresh i && conn && bad_height i then (`Contra, i :: newly)
+                else first_bad (if conn then i :: newly else newly) r
+              end in
+          let (verdict_of_batch, ingested) = first_bad [] e.batch in
           let active = hfm_of !prev_state in
           (* R5': the checkpoint the engine OUGHT to be waiting for = least checkpoint above the tip's height (SyncNode.least_above) *)
           (match th (tip_of !prev_state) with
@@ -123,14 +138,17 @@ let spec input obs_s =
                 scan 1 e.batch
               | None -> ())
            | _ -> ());
-          (match first_bad e.batch with
+          (match verdict_of_batch with
            | `Forb ->
              incr n_forb;
              if not (has_prefix_eff "X" p e.effs) then fail "forbidden-sender-not-disconnected" e.label;
              if (not is_x) && active && not (has_prefix_eff "B" p e.effs) then fail "forbidden-sender-not-banned" e.label;
              if Stdlib.List.exists (fun (q, _, _) -> q = p) gs then fail "request-after-forbidden" e.label
            | `Contra ->
-             if (not is_x) || linear_on_tip then begin
+             (* as the property states it: every delivery of a non-orphan header that differs from the checkpoint at its height -
+                the cursor's or any other, stale or longest, either engine - gets its sender disconnected in that step *)
+             if active then begin
+               incr n_contra;
                if not (has_prefix_eff "X" p e.effs) then fail "checkpoint-mismatch-not-disconnected" e.label;
                if Stdlib.List.exists (fun (q, _, _) -> q = p) gs then fail "request-after-checkpoint-mismatch" e.label
              end
@@ -145,6 +163,7 @@ let spec input obs_s =
           Stdlib.List.iter (fun (q, _, stop) ->
               if q = p && not (SyncSpec.spec_stop cps (z_of_int (next_of e.state)) (n_of_int stop)) then
                 fail "wrong-stop-hash" (Printf.sprintf "%s: stop %d while next checkpoint height is %d" e.label stop (next_of e.state))) gs;
+          if active then Stdlib.List.iter (fun i -> Hashtbl.replace connected i ()) ingested;
           Stdlib.List.iter (fun i -> Hashtbl.replace known i ()) e.batch
         end;
         if is_x && e.kind = 'N' then
